@@ -140,6 +140,11 @@ class Rotate(Domain):
             rotation_matrix, shifted_points.unsqueeze(-1)
         )
         shifted_points = rotated_points.squeeze(-1) + translate_values
+        # parameters can also be stored in the columns of the given points
+        all_params = points.join(params)
+        other_vars = [v for v in all_params.space.keys() if v not in self.space]
+        if other_vars:
+            params = all_params[:, other_vars]
         return self.domain._contains(Points(shifted_points, self.space), params)
 
     def sample_random_uniform(
